@@ -1,4 +1,4 @@
-\* Faithful model, invariants expected to hold (quick bounds).
+\* C33, faithful model, safety properties expected to hold (quick bounds; checks/C33.py overrides the bounds per tier).
 SPECIFICATION Spec
 CONSTANTS
   MaxLogs = 3
@@ -9,9 +9,11 @@ CONSTANTS
   MaxRestarts = 1
   JoinSubscriber = FALSE
   Mutant = "none"
+  LateAccepts = FALSE
   RecordHist = FALSE
 INVARIANTS
   TypeOK
   InvBatchContiguous
+  InvNoGapEver
   InvPersistedLeAcked
   InvLastLeAcked
